@@ -52,6 +52,13 @@ class _Continue(Exception):
     pass
 
 
+class StarArgs:
+    """The whole positional argument list of a call `f(*seq)` where seq has symbolic length."""
+
+    def __init__(self, seq):
+        self.seq = seq
+
+
 class _SymComp(Exception):
     def __init__(self, seq):
         self.seq = seq
@@ -206,7 +213,11 @@ class Interp:
                 frame.locals[name] = self.eval(st, defaults[di], frame.parent or Frame(None, frame.mod))
         rest = args[len(params) :]
         if a.vararg:
-            frame.locals[a.vararg.arg] = tuple(rest)
+            if not rest and a.vararg.arg in kwargs and getattr(f, "top_level", False):
+                rest = kwargs.pop(a.vararg.arg)  # the task passes *args as one sequence value
+                frame.locals[a.vararg.arg] = rest
+            else:
+                frame.locals[a.vararg.arg] = tuple(rest)
         elif rest:
             raise PyRaise(SExc(TypeError, ("too many positional arguments",)))
         for p, d in zip(a.kwonlyargs, a.kw_defaults):
@@ -363,7 +374,15 @@ class Interp:
         raise _Return(self.eval(st, s.value, fr) if s.value is not None else None)
 
     def s_If(self, st, s, fr):
-        if self.truth(st, self.eval(st, s.test, fr)):
+        t = self.truth(st, self.eval(st, s.test, fr))
+        # narrowing: after `x is None` / `x is not None` on a local optional, x is the inner value / None
+        c = s.test
+        if isinstance(c, ast.Compare) and len(c.ops) == 1 and isinstance(c.left, ast.Name) and isinstance(c.comparators[0], ast.Constant) and c.comparators[0].value is None and isinstance(c.ops[0], (ast.Is, ast.IsNot)):
+            name = c.left.id
+            if name in fr.locals and isinstance(fr.locals[name], SOpt):
+                is_none_branch = t if isinstance(c.ops[0], ast.Is) else not t
+                fr.locals[name] = None if is_none_branch else st.force(fr.locals[name])
+        if t:
             self.exec_block(st, s.body, fr)
         else:
             self.exec_block(st, s.orelse, fr)
@@ -554,8 +573,8 @@ class Interp:
             raise PathEnd()
         self.exec_block(st, s.orelse, fr)
 
-    def loop_view(self, fr, i):
-        d = {}
+    def loop_view(self, fr, i, iter_seq=None):
+        d = {"iter_": iter_seq}
         f = fr
         chain = []
         while f is not None:
@@ -690,13 +709,13 @@ class Interp:
             self.exec_block(st, s.orelse, fr)
             return
         name = f"{fr.fn.ref.qualname}/loop{self.task.loop_ordinal(fr.fn.ref, s)}"
-        self.check_inv(st, spec, self.loop_view(fr, 0), f"{name}/inv-init")
+        self.check_inv(st, spec, self.loop_view(fr, 0, seq), f"{name}/inv-init")
         self.havoc_loop(st, s, spec, fr)
         i = st.fresh_int("iter")
         n = Q.seq_len(seq)
         st.assume(V._cmp(">=", i, 0))
         st.assume(V._cmp("<=", i, n))
-        self.assume_inv(st, spec, self.loop_view(fr, i))
+        self.assume_inv(st, spec, self.loop_view(fr, i, seq))
         if st.branch(V._cmp("<", i, n)):
             self.assign_target(st, s.target, Q.seq_get(seq, i), fr)
             try:
@@ -705,7 +724,7 @@ class Interp:
                 return
             except _Continue:
                 pass
-            self.check_inv(st, spec, self.loop_view(fr, i + 1), f"{name}/inv-preserve")
+            self.check_inv(st, spec, self.loop_view(fr, i + 1, seq), f"{name}/inv-preserve")
             raise PathEnd()
         self.exec_block(st, s.orelse, fr)
 
@@ -1267,10 +1286,12 @@ class Interp:
     def _sym_comp(self, st, e, fr, seq):
         """Comprehension `[elt for target in seq]` over a sequence of symbolic length (single `for`,
         no `if`): a lazily evaluated sequence. Assumes `elt` is pure (no side effects, cannot raise)."""
-        if len(e.generators) != 1 or e.generators[0].ifs:
-            raise Unsupported("comprehension over a sequence of symbolic length (only a single `for` without `if` is modelled)")
+        if len(e.generators) != 1:
+            raise Unsupported("comprehension over a sequence of symbolic length (only a single `for` is modelled)")
         g = e.generators[0]
         n = Q.seq_len(seq)
+        if g.ifs:
+            return self._sym_filter(st, e, fr, seq)
         names = {x.id for x in ast.walk(g.target) if isinstance(x, ast.Name)}
         uses_target = any(isinstance(x, ast.Name) and x.id in names for x in ast.walk(e.elt))
 
@@ -1286,6 +1307,39 @@ class Interp:
             cfr.self_obj = fr.self_obj
             r.const_elt = self.eval(st, e.elt, cfr)
             r.getter = lambda i, v=r.const_elt: v
+        return r
+
+    def _sym_filter(self, st, e, fr, seq):
+        """`[x for x in seq if pred(x)]` over a sequence of symbolic length, elt == target only.
+        Model of a filter: a subsequence (strictly increasing index map) containing exactly the
+        elements satisfying the predicate, in order. Assumes pred is pure."""
+        g = e.generators[0]
+        if not (isinstance(e.elt, ast.Name) and isinstance(g.target, ast.Name) and e.elt.id == g.target.id):
+            raise Unsupported("filter comprehension whose element is not the loop variable")
+        n = Q.seq_len(seq)
+        base = Q.to_sseq(seq)
+
+        def pred(x):
+            cfr = Frame(fr.fn, fr.mod, parent=fr)
+            cfr.self_obj = fr.self_obj
+            cfr.locals[g.target.id] = x
+            r = True
+            for c in g.ifs:
+                v = self.eval(V.cur(), c, cfr)
+                r = both(r, v if isinstance(v, (bool, SBool)) else self.truth(V.cur(), v))
+            return r
+
+        m = st.fresh_int("flen")
+        idx = z3.Function(st.fresh_name("fidx"), z3.IntSort(), z3.IntSort())
+        pos = z3.Function(st.fresh_name("fpos"), z3.IntSort(), z3.IntSort())
+        st.assume(both(V._cmp(">=", m, 0), V._cmp("<=", m, n)))
+        zi = lambda t: mk_int(idx(V._z(t)))  # noqa: E731
+        zp = lambda t: mk_int(pos(V._z(t)))  # noqa: E731
+        st.assume(V.forall(0, m, lambda j: both(zi(j) >= 0, zi(j) < n, pred(base.get(zi(j))), zp(zi(j)) == j)))
+        st.assume(V.forall(0, m - 1, lambda j: zi(j) < zi(j + 1)))
+        st.assume(V.forall(0, n, lambda i: V.implies(pred(base.get(i)), both(zp(i) >= 0, zp(i) < m, zi(zp(i)) == i))))
+        r = SSeq(m, lambda j: base.get(zi(j)), base.shape, None, "filter")
+        r.filter_of = (base, zi, zp, pred)
         return r
 
     def e_ListComp(self, st, e, fr):
@@ -1329,8 +1383,13 @@ class Interp:
         for a in e.args:
             if isinstance(a, ast.Starred):
                 v = self.iter_view(st, st.force(self.eval(st, a.value, fr)))
+                if isinstance(v, LRef):
+                    v = v.seq
                 n = Q.seq_len(v)
                 if not isinstance(n, int):
+                    if len(e.args) == 1 and not e.keywords:
+                        args.append(StarArgs(v))  # f(*seq) with a sequence of symbolic length: opaque callees only
+                        continue
                     raise Unsupported("*args of symbolic length")
                 args.extend(Q.seq_get(v, i) for i in range(n))
             else:
